@@ -73,6 +73,9 @@ def implicit_default(cxx, cty):
     return None
 
 
+DEFAULT_EXPRS = {}
+
+
 def gen_struct(cname, srcs, unit, manifest):
     lines = ['struct %s {' % cname]
     inits = []
@@ -113,6 +116,7 @@ def gen_struct(cname, srcs, unit, manifest):
                 dl.append(('%s[%d]' % (am.group(1), k), (elems[k] if k < len(elems) else '0') if elems is not None else e))
             continue
         dl.append((name, e))
+    DEFAULT_EXPRS[cname] = list(dl)
     up = cname.upper()
     lines.append('#define %s_DEFAULTS %s' % (up, ', '.join('.%s = %s' % (n, re.sub(r'\(o\)->', '', e)) for n, e in dl) or '0'))
     lines.append('#define %s_SET_DEFAULTS(o) do { %s } while (0)' % (up, ' '.join('(o)->%s = %s;' % (n, e) for n, e in dl)))
@@ -169,6 +173,17 @@ def lowered_body(spec, unit, log):
     if spec.wrapbody is not None:
         inits = ''.join('\n%s = %s;' % (m, e if e else '0') for m, e in ex.inits)
         body = spec.wrapbody.replace('%INITS%', inits).replace('%BODY%', body)
+        # %DEFAULTS_REST:<struct>% : the default member initialisers of exactly those members the constructor's own initialiser list
+        # does not mention (C++ ignores the default initialiser of a member that has a mem-initialiser)
+        def rest(m):
+            named = set(n for n, _ in ex.inits)
+            out = []
+            for n, e in DEFAULT_EXPRS.get(m.group(1), []):
+                if re.sub(r'\[.*$', '', n) in named:
+                    continue
+                out.append('(self)->%s = %s;' % (n, e.replace('(o)->', '(self)->')))
+            return ' '.join(out)
+        body = re.sub(r'%DEFAULTS_REST:(\w+)%', rest, body)
         if ex.handlers:
             for i, (decl, hbody) in enumerate(ex.handlers):
                 body = body.replace('%%HANDLER%d%%' % (i + 1), hbody)
